@@ -6,7 +6,7 @@ import re
 
 from .. import annot, core
 from .. import c11_common as cc
-from .c11 import check_slice
+from .c11 import check_slice, gen_chain, apply_step, fresh_of
 
 PID = 'C07'
 DRV = 'drv_c07'
@@ -204,7 +204,48 @@ def is_partition(spans, n):
     return pos == n
 
 
-ORACLES = {'pieces': o_pieces, 'mass': o_mass}
+def lineage_object(c):
+    """the annotation obtained by applying the chain of editors to one object lineage"""
+    x = annot.undump(c[1])
+    for st in c[2]:
+        x = apply_step(x, st)
+    return x
+
+
+def lineage_digest(x, c, rt='annotation-span'):
+    _, digestion = _pt()
+    _, _, _, rules, mc, semi = c
+    return list(digestion.digest(x, list(rules), mc, semi, None, None, True, rt, True))
+
+
+def o_lineage(c):
+    """digesting an annotation that has a history (it was sorted / reversed / shifted / shuffled / cut before, in place or not)
+    gives what digesting a fresh object of the same value gives"""
+    from peptacular.proforma.proforma_parser import parse
+    x = lineage_object(c)
+    before = annot.dump(x, sort_internal=False)
+    fresh = fresh_of(x)
+    o1 = lineage_digest(x, c)
+    o2 = lineage_digest(fresh, c)
+    if show_pieces(o1) != show_pieces(o2):
+        return (f'digest of the annotation with history {c[2]} gives {[p.serialize() for p, _ in o1]}, of a fresh object of the '
+                f'same value {[p.serialize() for p, _ in o2]}')
+    if annot.dump(x, sort_internal=False) != before:
+        return 'digest changed the annotation'
+    s1 = lineage_digest(x, c, 'str')
+    if s1 != [p.serialize() for p, _ in o1] or s1 != lineage_digest(fresh, c, 'str'):
+        return f'str return type on the annotation with history: {s1}'
+    if show_pieces(lineage_digest(x, c)) != show_pieces(o1):
+        return 'second digest of the same annotation differs from the first'
+    if not cc.is_odd(fresh) and cc.roundtrips(fresh):
+        o3 = lineage_digest(parse(fresh.serialize()), c)
+        if annot_norm_pieces(show_pieces(o3)) != annot_norm_pieces(show_pieces(o1)):
+            return (f'digest of the annotation with history {c[2]} differs from the digest of its re-parse '
+                    f'{fresh.serialize()!r}')
+    return None
+
+
+ORACLES = {'pieces': o_pieces, 'mass': o_mass, 'lineage': o_lineage}
 
 
 def _without(c, what):
@@ -449,6 +490,24 @@ def run(chk):
     chk.notes.append('reach: lines of the modelled functions not executed by the correspondence inputs (the other return-type '
                      'branches of the dispatcher are executed by the oracle): ' + (json.dumps(unc) if unc else 'none'))
 
+    # ---------------------------------------------------------------- digest of annotations that have a history
+    lin = []
+    for idx, c in enumerate(dig[:: (2 if tier == 'quick' else 1)]):
+        a = annot.undump(c[1])
+        if len(a._sequence) < 3 or cc.out_of_range_keys(a):
+            continue
+        forced = [None, ['sort', 'rev'], ['sort', 'slice'], ['discard', 'shift'], ['shuf', 'sort'], ['sort', 'shift', 'sort']][idx % 6]
+        st = [x for x in gen_chain(rng, a, forced) if x[0] != 'strip'][:3]
+        if st:
+            lin.append(('lineage', c[1], st, c[2], rng.randint(0, 2), rng.random() < 0.3))
+
+    def lin_line(c):
+        x = fresh_of(lineage_object(c))
+        return (f'digest\t{annot.dump(x, sort_internal=False)}\t{ilist(sites_of(x, c[3]))}\t{c[4]}\tNone\tNone\t{int(c[5])}\t1')
+
+    chk.correspond('digest(lineage)', DRV, lin, lin_line, lambda c: show_pieces(lineage_digest(lineage_object(c), c)),
+                   compare=lambda im, m: im == canon_reply(m), nontrivial_fn=lambda c, im: im.count('~') >= 1)
+
     # ---------------------------------------------------------------- oracle
     def in_domain(c):
         """remove intervals straddled by a cut that the case uses"""
@@ -478,6 +537,8 @@ def run(chk):
         return a.has_mods() and len(a._sequence) >= 4
 
     cc.ranked_oracle(chk, 'pieces', ocases, o_pieces, classify, key_fn=repr, nontrivial_fn=o_nontrivial)
+
+    cc.ranked_oracle(chk, 'lineage', lin, o_lineage, classify, key_fn=repr, nontrivial_fn=lambda c: True)
 
     # mass: zero missed cleavages, complete digestion, no length bounds
     mcases = []
